@@ -14,7 +14,7 @@
    concrete mechanisms with peer credentials, the user database, the cookie
    file and SHA-1 as parameters.
 
-   Four repairs were made to the code (fixes/D09, D10a, D10b, D11); the record
+   Five repairs were made to the code (fixes/D09, D10a, D10b, D11 and C04's D32); the record
    [fixes] says which of them the modelled tree carries, so the same
    definitions give the current model ([current]) and the legacy one
    ([legacy]).  Definitions only. *)
@@ -30,10 +30,12 @@ Record fixes := {
   fx10a : bool;   (* stepAuth hands the decoded response to the mechanism as bytes;
                      BusCookieAuthenticator._step_one decodes the user name itself *)
   fx10b : bool;   (* _step_two forgets the cookie id once the cookie is deleted *)
-  fx11 : bool     (* stepAuth answers ERROR to a response that is not hex *)
+  fx11 : bool;    (* stepAuth answers ERROR to a response that is not hex *)
+  fx32 : bool     (* protocol.py: the unfinished remainder of a read may be MAX_AUTH_LENGTH + 1
+                     bytes long (it may end with the '\r' of a line of the maximum length) *)
 }.
-Definition current : fixes := {| fx09 := true; fx10a := true; fx10b := true; fx11 := true |}.
-Definition legacy : fixes := {| fx09 := false; fx10a := false; fx10b := false; fx11 := false |}.
+Definition current : fixes := {| fx09 := true; fx10a := true; fx10b := true; fx11 := true; fx32 := true |}.
+Definition legacy : fixes := {| fx09 := false; fx10a := false; fx10b := false; fx11 := false; fx32 := false |}.
 
 (* What the authenticator needs from the mechanisms.  The world M holds
    whatever the mechanism objects and their environment consist of. *)
@@ -265,13 +267,16 @@ Section Authenticator.
         (c2, o1 ++ o2)
     end.
 
+  (* "if len(self._buffer) > self.MAX_AUTH_LENGTH [+ 1]" after the loop over the lines *)
+  Definition buf_limit : N := if fx32 F then MAX_AUTH + 1 else MAX_AUTH.
+
   Definition process (c : conn) (data : bytes) : conn * list out :=
     let ls := split_crlf (c_buf c ++ data) in
     let c1 := {| c_mode := c_mode c; c_first := c_first c; c_buf := last ls []; c_auth := c_auth c |} in
     let (c2, outs) := feed_all c1 (removelast ls) in
     match c_mode c2 with
     | Live =>
-        if MAX_AUTH <? N.of_nat (length (c_buf c2))
+        if buf_limit <? N.of_nat (length (c_buf c2))
         then (with_mode c2 Closed (c_auth c2), outs ++ [OClose])
         else (c2, outs)
     | _ => (c2, outs)
